@@ -20,9 +20,12 @@ NOTES = {
          "FILE model: prefix truncation only; identity of accepted snapshots with the uninterrupted run is C06"),
  "C08": ("reb_simulation_integrate_raw / reb_check_exit state machine over the reals for a per-step contract (exact finish, no backwards time, dt restored, no-op at t==tmax, status precedence, dt_last_done reset); the step contract itself proved on the real IAS15 / BS controllers and the real MERCURIUS / TRACE part2 (sign of dt kept, min_dt/max_dt, sub-steps never pass t+dt)",
          "doubles as reals; floating-point coincidences at tmax and termination of adaptive loops not decided"),
- "C09": ("safe mode == unsafe + synchronize at operator-word level by induction over steps (base + step lemma on words extracted from the real code), sync idempotent, keep_unsynchronized restores p_jh", "merge laws of exact flows assumed; rounding differences not decided"),
- "C10": ("JANUS step(-dt) o step(dt) = id on the integer state (floating point uninterpreted + IEEE oddness), symmetric schemes palindromic", "IEEE oddness/commutativity axioms; int64 overflow not modelled"),
- "C11": ("orbital element <-> Cartesian maps: rejections, definedness, defining relations, anomaly conversions", "doubles as reals; trig axioms per occurrence; Newton convergence not decided"),
+ "C09": ("safe mode == unsafe + synchronize at operator-word level by induction over steps (base + step lemma on words extracted from the real code) for WHFast, SABA, EOS, encounter-free MERCURIUS; sync idempotent; keep_unsynchronized restores the cached coordinates of every particle (word level and memory level); coordinate cache invalidated whenever N changed; step length changes only in a synchronised state; getSimulation decision table (exhaustive)",
+         "merge laws of exact flows assumed; rounding differences not decided; two known findings (corrector2 inverse, keep_unsynchronized with exact finish)"),
+ "C10": ("JANUS step(-dt) o step(dt) = id on the integer state (floating point uninterpreted + IEEE oddness); integer state rebuilt exactly when requested or when N changed; symmetric schemes palindromic in synchronized and unsynchronized mode; force evaluation a pure function of positions and of the integrator's own pair filter; Kepler solver bracket for both signs of dt; SEI cache of the current dt",
+         "IEEE oddness/commutativity axioms; int64 overflow not modelled; size of the rounding error of non-JANUS round trips not decided"),
+ "C11": ("orbital element <-> Cartesian maps: rejections, definedness, defining relations, anomaly conversions; twin front ends: same accept/reject tables, same prograde/retrograde angle conversions (inverse of the reader's convention), same dimensional conversions (a from P, M from T), arguments reach the parameter of the same name, Python aliases folded before use",
+         "doubles as reals; trig axioms per occurrence; Newton convergence and the omega,f round trip not decided; parser contracts are extracted syntactically and compared exactly"),
  "C12": ("all coordinate transformations: forward definitions, slot 0 = (M, COM), inverses recover inputs, variants agree, memory safety; symbolic N, N_active", "doubles as reals; non-zero prefix masses as stated preconditions"),
  "C13": ("collision search predicates (direct, line both signs of dt, tree leaf test), resolve algebra (merge, hard sphere), index fix-up after removals for sorted / unsorted / tree / hybrid-integrator removal, tree updated before it is walked",
          "doubles as reals; recursive tree search not decided"),
@@ -30,12 +33,16 @@ NOTES = {
          "qsort contract assumed; integers mathematical"),
  "C15": ("boundary wrap loops, open-boundary removal, ghost boxes, root-cell index arithmetic, tree local lemmas; a tree exists whenever a module uses it, also after load/copy (shared with C05); collision search updates the tree before walking it",
          "doubles as reals; global tree invariant for arbitrary depth not decided"),
- "C16": ("variational force loops equal the symbolic derivative of the pair-force specification (1st and 2nd order, accumulation rule); all 65 derivative constructors equal the sympy derivative of the real forward map; add_variation / rescale / MEGNO bookkeeping; Python dispatch", "doubles as reals; Kepler-Pal solver through its summary contract; propagation by the integrators beyond the force routine, MEGNO->2 not decided"),
+ "C16": ("variational force loops equal the symbolic derivative of the softened pair-force specification (1st and 2nd order, accumulation rule); all 65 derivative constructors equal the sympy derivative of the real forward map; add_variation / rescale (incl. the IAS15 predictor state) / MEGNO bookkeeping; WHFast words refresh variational positions before every kick; Stumpff cs recurrences of the tangent map; frame shifts apply their derivative; Python dispatch",
+         "doubles as reals; Kepler-Pal solver through its summary contract; tangent map of the Kepler solver beyond its Stumpff functions, MEGNO->2 not decided"),
  "C17": ("reb_particle_diff differs iff a non-pointer member differs; compare-mode flag semantics of reb_binary_diff for arbitrary field sequences incl. both passes and full element loops; no persisted array embedding addresses is compared byte-wise; copy reads the source only through the serialiser, which writes every descriptor in every state (shared with C05)",
          "byte content uninterpreted; evolution of a copy argued from C05 only"),
- "C18": ("exhaustive per-member comparison of clang record layouts with the ctypes classes, option tables vs C enums, setter/getter round trips", "x86-64 layout; alias table listed as assumptions"),
- "C19": ("whole-library frames: no written global state except reb_sigint, no non-reentrant libc, lockset around step and served serialisation, serialisation write frame", "data-race-freedom meta-theorem trusted; scheduling itself not modelled"),
- "C20": ("quaternion algebra and constructors incl. degenerate ones, unit conversions, frame shifts and linear combinations", "doubles as reals; reference constants table is an assumption"),
+ "C18": ("exhaustive per-member comparison of clang record layouts with the ctypes classes, option tables vs C enums, every named function option references the C function of that name, setter/getter round trips, Variation.lrescale addresses its own configuration",
+         "x86-64 layout; alias table listed as assumptions"),
+ "C19": ("whole-library frames: no written global or function-static state except reb_sigint, no non-reentrant libc, lockset around step and served serialisation, serialisation write frame, every call made while serving writes only the serialiser's frame, pausing a run does not synchronise it",
+         "data-race-freedom meta-theorem trusted; scheduling itself not modelled"),
+ "C20": ("quaternion algebra and constructors incl. degenerate ones, unit tables and conversions, frame shifts incl. variational corrections, linear combinations; element conversions of both front ends carry G in the right place",
+         "doubles as reals; reference constants table is an assumption; obtuse from_to branch not decided"),
 }
 NA = {
 }
